@@ -15,10 +15,10 @@ CLAIMED = {
                 text='The source-level equivalences are proved for all values in Src/CSem.v; the tables through which the generator canonicalises comparisons are proved relation-preserving and compared with the real generator on every cell; that the compiler emits equivalent code for two spellings is co-executed, not proved: every applicable rewrite site of generated programs is rewritten (commute, swap, compound assignment folded/unfolded, ++ as += 1, if/else with negated condition, for as while) and both spellings must end in the same state from the same initial states. A spelling the compiler rejects is a rejection, not a violation. Partial.',
                 ref='DESIGN.md sections 6 C15 and 12'),
     'C03': dict(cat='proof', technique='Coq proof on a Gallina model of check_branches + per-run unit correspondence with the Rust + co-execution on the extracted 6502 semantics',
-                text='Theorems (unbounded over line lists, states, flags): every conditional branch left by check_branches is within -128..127 when its label is unique; the repair skeleton exits exactly where the original branch (pair) did for every flag state; no panic when targets are defined; labels stay unique and defined; the iteration terminates; and GLOBAL soundness on the 6502 semantics: for every code without .fixN-style labels of its own, if the original halts in state s then the repaired code halts in the SAME state (C03_check_branches_sound / _run, by a window-replacement theorem for windows of different lengths), and the pipeline optimize-then-check_branches simulates the generated code (C03_pipeline_sound, under the side conditions of the optimiser theorem: no calls / stack operations, known-compare rule not fired). Tied to src/assemble.rs by running the Rust and the extracted model on the same thousands of boundary-sweeping inputs each run, and by recomputing displacements / co-executing original vs repaired on the implementation\'s own output.',
+                text='Theorems (unbounded over line lists, states, flags): every conditional branch left by check_branches is within -128..127 when its label is unique; the repair skeleton exits exactly where the original branch (pair) did for every flag state; no panic when targets are defined; labels stay unique and defined; the iteration terminates; and GLOBAL soundness on the 6502 semantics: for every code without .fixN-style labels of its own, if the original halts in state s then the repaired code halts in the SAME state (C03_check_branches_sound / _run, by a window-replacement theorem for windows of different lengths), and the pipeline optimize-then-check_branches simulates the generated code (C03_pipeline_sound), also for whole programs with calls and returns (C03_check_branches_program_sound, C03_pipeline_program_sound / _run: what the compiler emits at -O1 for every function of a program simulates the unoptimised program on Sem.run_function; side conditions of the optimiser theorem: no stack instructions or inline assembly, known-compare rule not fired). Tied to src/assemble.rs by running the Rust and the extracted model on the same thousands of boundary-sweeping inputs each run, and by recomputing displacements / co-executing original vs repaired on the implementation\'s own output.',
                 ref='DESIGN.md section 6 C03'),
     'C02': dict(cat='proof', technique='Coq proofs on a Gallina model of the peephole optimiser (structure for all line lists; per-instruction knowledge soundness and per-rule soundness on the 6502 semantics) + exact per-run correspondence with the Rust + -O0 vs -O1..3 co-execution',
-                text='Proved for all line lists: the optimiser terminates, only turns unprotected instructions (or immediate compares) into Dummy or swaps LDA with SEC/CLC, never touches labels/inline/comments, invents nothing. Proved on the 6502 semantics (when Props/C02sem.v is present): the register-knowledge transfer function (register contents and which register N/Z describe) is sound for every instruction, each rewrite rule preserves the state up to N/Z, and a removed load either changes nothing or only N/Z while the next instruction(s) the look-ahead inspected redefine them whatever they were (removal_dead). The global simulation IS proved for straight-line code (optimize_straight_sound: for every line list without labels, branches, calls and stack operations whose operands pass a syntactic scan, executing the optimised list ends in a state equal to the state the original reaches, flags included, both on a straight-line executor and on Sem.run); across labels, branches and calls it is NOT proved; it is explored by co-executing -O0 against every other level on seeded programs with optimiser baits. Partial.',
+                text='Proved for all line lists: the optimiser terminates, only turns unprotected instructions (or immediate compares) into Dummy or swaps LDA with SEC/CLC, never touches labels/inline/comments, invents nothing. Proved on the 6502 semantics (when Props/C02sem.v is present): the register-knowledge transfer function (register contents and which register N/Z describe) is sound for every instruction, each rewrite rule preserves the state up to N/Z, and a removed load either changes nothing or only N/Z while the next instruction(s) the look-ahead inspected redefine them whatever they were (removal_dead). The global simulation IS proved for straight-line code (optimize_straight_sound: for every line list without labels, branches, calls and stack operations whose operands pass a syntactic scan, executing the optimised list ends in a state equal to the state the original reaches, flags included, both on a straight-line executor and on Sem.run); for code with labels, branches and loops (optimize_cf_sound), and for WHOLE PROGRAMS with calls and returns at any nesting depth, recursion included (C02_optimize_program_sound / _run on Sem.run_function with a program table: if the original program halts in s, the per-function optimised program halts in a state with the same registers, flags and memory), under syntactic side conditions computed by boolean scans (no stack instructions, no inline assembly, pairwise different labels, the known-compare rule does not fire). Stack instructions, inline assembly, the known-compare rule and the converse direction are NOT proved; they are explored by co-executing -O0 against every other level on seeded programs with optimiser baits. Partial.',
                 ref='DESIGN.md section 6 C02'),
     'C18': dict(cat='proof', technique='Coq proofs (csleep cycle/frame theorem on the 6502 cycle model; optimiser keeps protected instructions and inline assembly) + exhaustive csleep-table correspondence + trace co-execution against the extracted C semantics',
                 text='csleep(n) is proved to take exactly n cycles and to change nothing but DUMMY and the free stack byte for every state, on a table compared exhaustively with the generator each run; the optimiser is proved never to remove, duplicate or reorder protected instructions and inline lines; executed event traces at every level are compared with the trace the C semantics prescribes, and deleting csleep statements must not change final states.',
